@@ -95,6 +95,15 @@ Theorem c02_viterbi_ml :
 Proof. exact (viterbi_ml_gen source_tiebreak). Qed.
 Print Assumptions c02_viterbi_ml.
 
+(** margins behind modelling  size_t(std::round(min_cost / float(llr_limit)))  as (2 min + L) / (2 L): the exact
+    quotient min/L stays at least 1/(2L) away from every half-integer (L odd), and min < 2^23 so that the int -> float
+    conversion is exact and a correctly rounded float division errs by less than 1/(2L).  ([c02_no_wrap] and
+    [c02_viterbi_ml] give 0 <= min <= 318 * 244 = 77592.)  The IEEE operations themselves are not modelled. *)
+Theorem c02_cost_rounding_margin : forall m L k : Z, 0 <= m <= 77592 -> 1 <= L <= 31 -> Z.odd L = true ->
+  1 <= Z.abs (2 * m - (2 * k + 1) * L) /\ 2 * m < 2 ^ 24.
+Proof. exact cost_rounding_margin. Qed.
+Print Assumptions c02_cost_rounding_margin.
+
 (** the same for every way of breaking ties in the two butterfly comparisons and the end-state scan
     (so a [>] -> [>=] rewrite of the source stays inside the proved class) *)
 Theorem c02_viterbi_ml_any_tiebreak :
@@ -136,6 +145,13 @@ Theorem c02_dfree_lower_bound : forall (mask : list bool) (k : nat) (d : list bo
   dfree mask k <= mweight mask (conv d).
 Proof. exact dfree_lb. Qed.
 Print Assumptions c02_dfree_lower_bound.
+
+(**    ... and it is attained, i.e. dfree mask k IS that minimum ... *)
+Theorem c02_dfree_is_minimum : forall (mask : list bool) (k n : nat),
+  length mask = (2 * n)%nat -> (1 <= k)%nat -> (1 <= n)%nat ->
+  exists d : list bool, length d = n /\ existsb (fun b => b) (firstn k d) = true /\ mweight mask (conv d) = dfree mask k.
+Proof. exact dfree_attained. Qed.
+Print Assumptions c02_dfree_is_minimum.
 
 (**    ... a word strictly closer than every word with different first k bits is the one decoded ... *)
 Theorem c02_closer_returned :
